@@ -65,11 +65,11 @@ CLAIMED = {
         ref="DESIGN.md section 5 C06"),
     "C09": dict(
         text=("Proof: decode(encode) = identity for every length below 2^32 (all three length forms by omega, truncation beyond proved as witness), every byte string, every value of "
-              "all six types with arbitrary contents, and whole snapshots: decSnapshot(encSnapshot d t) t' = the dataset with exactly the entries still alive at t' (keys expired during "
+              "all six types with arbitrary contents (no exclusion left: lists headed by the internal stream marker round-trip through the escape rule since 8969840), and whole snapshots: decSnapshot(encSnapshot d t) t' = the dataset with exactly the entries still alive at t' (keys expired during "
               "the downtime absent), with an exact characterisation of what the loader makes of any valid dataset and totality of the loader model on every byte string - Lean theorems over a "
               "byte-exact model of rdb.rs; real save/load in-process and one TCP restart per run are compared with the model in both directions (real file -> Lean decoder, Lean encoder -> "
               "real loader, re-encoding byte-equal to the real file), incl. all size boundaries, 16 dbs, TTLs shorter/longer than a measured downtime, off-grammar and mutated files."),
-        note=TB + "The list/zset load loops are summarised as 'first element then the rest' (argued, validated on corrupted files, not proved equal to the per-element loop); NaN scores excluded; a list headed by the internal stream marker string is a recorded finding (needs a format change).",
+        note=TB + "The list/zset load loops are summarised as 'first element then the rest' (argued, validated on corrupted files, not proved equal to the per-element loop); NaN scores excluded; dumps written before the escape rule load as before (snapshot_load_across_versions).",
         ref="DESIGN.md section 5 C09"),
     "C17": dict(
         text=("Proof: gate totality - for EVERY command name (any byte string), argument list, dispatch function and non-authenticated state the reply is an error and the server state is "
